@@ -300,13 +300,19 @@ func runC08(r *Rng, n int, replay string) {
 		h := helpers[it%len(helpers)]
 		baseKind := []string{"mem", "os"}[(it/len(helpers))%2]
 		universe := helperUniverses[h]
-		var native []string
+		var native, nativeOwn []string
 		for _, m := range universe {
-			if baseKind == "os" || memNative[m] {
+			if baseKind == "os" || memNative[m] || m == "Mount" {
 				native = append(native, m)
+				if m != "Mount" {
+					nativeOwn = append(nativeOwn, m)
+				}
 			}
 		}
 		sort.Strings(native)
+		sort.Strings(nativeOwn)
+		// "Mount": the wrapper is also a MountFS, the identity mount onto a file system exposing all the base natively offers
+		ownKey := strings.Join(nativeOwn, ",")
 		// a start state and arguments from the C01 alphabet
 		prepSeed := r.Next()
 		prep := genNS(NewRng(prepSeed), false)
@@ -314,6 +320,7 @@ func runC08(r *Rng, n int, replay string) {
 			prep = prep[:10]
 		}
 		sh := shadow{".": true}
+		linkTo := "" // os only: "ln" is a symbolic link to this path (Lstat and Stat then differ)
 		mkBase := func() (hackpadfs.FS, func()) {
 			var fs hackpadfs.FS
 			done := func() {}
@@ -327,6 +334,11 @@ func runC08(r *Rng, n int, replay string) {
 				w.Apply(o)
 			}
 			w.CloseAll()
+			if linkTo != "" {
+				if err := hackpadfs.Symlink(fs, linkTo, "ln"); err != nil {
+					panic(err)
+				}
+			}
 			return fs, done
 		}
 		probe, probeDone := mkBase()
@@ -345,10 +357,15 @@ func runC08(r *Rng, n int, replay string) {
 		if arg.Flag == 0 {
 			arg.Flag = fWRONLY | fCREATE
 		}
+		if baseKind == "os" && (h == "Lstat" || h == "LstatOrStat" || h == "Stat" || h == "ReadFile" || h == "Chmod") && r.Intn(2) == 0 {
+			if _, ok := sh[p]; ok && p != "." {
+				linkTo, arg.P = p, "ln"
+			}
+		}
 		// reference: everything the base natively offers is exposed
 		fullFS, fullDone := mkBase()
 		calls := 0
-		full := maskConstructors[strings.Join(native, ",")](faultFull{base: fullFS, calls: &calls, failAt: -1})
+		full := maskConstructors[ownKey](faultFull{base: fullFS, calls: &calls, failAt: -1}, nil)
 		want := callHelper(full, h, arg)
 		wantSnap := Snapshot(fullFS, cands)
 		fullDone()
@@ -364,7 +381,7 @@ func runC08(r *Rng, n int, replay string) {
 			calls := 0
 			var log []string
 			ff := faultFull{base: baseFS, calls: &calls, failAt: -1, log: &log}
-			masked := maskConstructors[strings.Join(subset, ",")](ff)
+			masked := maskConstructors[strings.Join(subset, ",")](ff, maskConstructors[ownKey](ff, nil))
 			got := callHelper(masked, h, arg)
 			after := Snapshot(baseFS, cands)
 			c := &Case{ID: id, Kind: baseKind + "/" + h}
@@ -380,6 +397,8 @@ func runC08(r *Rng, n int, replay string) {
 				if d := snapDiffExact(before, after); d != "" {
 					c.fail(c.Text[0]+": failed with ErrNotImplemented but changed the file system: "+d, sig+":enosys-changed")
 				}
+			case h == "LstatOrStat" && linkTo != "" && !strings.Contains(","+strings.Join(subset, ",")+",", ",Lstat,") && !strings.Contains(","+strings.Join(subset, ",")+",", ",Mount,"):
+				// no Lstat within reach: answering a symbolic link with Stat is what this helper is for
 			default:
 				if got.failed() != want.failed() || (!got.failed() && obsData(got) != obsData(want)) {
 					c.fail(c.Text[0]+": result differs from the one with all interfaces exposed", sig+":result")
@@ -392,6 +411,12 @@ func runC08(r *Rng, n int, replay string) {
 					has := map[string]bool{}
 					for _, m := range subset {
 						has[m] = true
+					}
+					if has["Mount"] {
+						// the identity mount reaches every native method of the base: the same as exposing them all
+						for _, m := range nativeOwn {
+							has[m] = true
+						}
 					}
 					capsC := fmt.Sprintf("(mkCaps %s %s %s %s %s %s %s %s)", cBool(has["OpenFile"]), cBool(has["Mkdir"]), cBool(has["MkdirAll"]), cBool(has["Remove"]),
 						cBool(has["Rename"]), cBool(has["Stat"]), cBool(has["Chmod"]), cBool(has["Chtimes"]))
@@ -413,7 +438,7 @@ func runC08(r *Rng, n int, replay string) {
 				baseFS, done := mkBase()
 				calls := 0
 				ff := faultFull{base: baseFS, calls: &calls, failAt: k}
-				masked := maskConstructors[strings.Join(subset, ",")](ff)
+				masked := maskConstructors[strings.Join(subset, ",")](ff, maskConstructors[ownKey](ff, nil))
 				r2 := callHelper(masked, h, arg)
 				fc := &Case{ID: id, Kind: baseKind + "/" + h + "/fault"}
 				id++
@@ -444,6 +469,9 @@ func obsData(o Obs) string {
 	switch o.Kind {
 	case "info":
 		d, p := kindPerm(o.Mode)
+		if o.Mode&uint32(gofs.ModeSymlink) != 0 {
+			return fmt.Sprintf("info %s symlink", o.Name) // (its size is the length of the target's OS path: differs per temp dir)
+		}
 		if d {
 			return fmt.Sprintf("info dir %o", p) // a directory's name (the root's differs per temp dir) and size are not compared
 		}
